@@ -15,8 +15,8 @@ theorem run_n (c : Cfg) (P : Picker ρ α) (minK : Nat) (hist : Hist α) (hv : h
   | upd h p ih =>
     simp only [run, Hist.inputs]
     by_cases hp : p.length = h.dim
-    · rw [update_n _ _ _ _ (by rw [run_dim]; exact hp), ih hv r hne]; simp [hp]
-    · rw [update_refused _ _ _ _ (by rw [run_dim]; exact hp), ih hv r hne]; simp [hp]
+    · rw [update_n _ _ _ _ _ (by rw [run_dim]; exact hp), ih hv r hne]; simp [hp]
+    · rw [update_refused _ _ _ _ _ (by rw [run_dim]; exact hp), ih hv r hne]; simp [hp]
   | merge h o ih1 ih2 =>
     obtain ⟨h1, h2, h3⟩ := hne
     have e1 := ih1 hv.1 r h1
@@ -58,59 +58,121 @@ theorem skipped_exact_nil (c : Cfg) {o : Sketch α} {pts : List (Point α)} (hi 
     rw [h0, hl, sumLen_singleton] at this
     exact List.eq_nil_of_length_eq_zero this.symm
 
+/-- BOTH shapes of `compact()`: a sketch with one level that has not lost a point (`num_retained_ = n_`), all of whose merged
+operands were in that state too, holds exactly its inputs, in order. -/
 theorem run_exact (c : Cfg) (P : Picker ρ α) (minK : Nat) (hm : 1 ≤ minK) (hist : Hist α) (hv : hist.valid minK) (r : ρ)
-    (hop : hist.operandsExact c P r) (h1 : (run c P hist r).1.levels.length = 1) :
+    (hop : hist.operandsExact c P r) (h1 : (run c P hist r).1.levels.length = 1)
+    (hn : (run c P hist r).1.numRetained = (run c P hist r).1.n) :
     (run c P hist r).1.levels = [hist.inputs] ∧ (run c P hist r).1.n = hist.inputs.length := by
   induction hist generalizing r with
   | new k d => exact ⟨rfl, rfl⟩
   | upd h p ih =>
     have hs := run_rinv c P minK hm h hv r
-    simp only [run, Hist.inputs] at h1 ⊢
+    simp only [run, Hist.inputs] at h1 hn ⊢
     by_cases hp : p.length = h.dim
     · have hp' : p.length = (run c P h r).1.dim := by rw [run_dim]; exact hp
-      rw [update_accepted _ _ _ _ hp'] at h1 ⊢
-      simp only at h1 ⊢
-      rw [length_pushLevel0 _ _ (compactLoop_inv P _ hs.inv).ne] at h1
-      have hnc := drain_one_level P _ _ hs.inv hs.kpos h1
-      have hnc' : compactLoop P (run c P h r).2 (run c P h r).1 = ((run c P h r).1, (run c P h r).2) := hnc
-      rw [hnc'] at h1 ⊢
-      obtain ⟨e1, e2⟩ := ih hv r hop h1
+      rw [update_accepted _ _ _ _ _ hp'] at h1 hn ⊢
+      simp only at h1 hn ⊢
+      rw [length_pushLevel0 _ _ (compactLoop_inv c P _ hs.inv).ne] at h1
+      have g1 := compactLoop_numRetained_le c P (run c P h r).2 (run c P h r).1
+      have g2 := compactLoop_n c P (run c P h r).2 (run c P h r).1
+      have g3 := hs.nge
+      have hnc := drain_noop c P _ _ hs.inv hs.kpos hs.top (by unfold compactLoop at g1 g2 hn; omega) h1
+      have hnc' : compactLoop c P (run c P h r).2 (run c P h r).1 = ((run c P h r).1, (run c P h r).2) := hnc
+      rw [hnc'] at h1 hn ⊢
+      obtain ⟨e1, e2⟩ := ih hv r hop h1 (by simp only at hn; omega)
       simp only [hp, if_true]
       rw [e1, e2]
       simp [pushLevel0]
     · have hp' : p.length ≠ (run c P h r).1.dim := by rw [run_dim]; exact hp
-      rw [update_refused _ _ _ _ hp'] at h1 ⊢
+      rw [update_refused _ _ _ _ _ hp'] at h1 hn ⊢
       simp only [hp, if_false]
-      exact ih hv r hop h1
+      exact ih hv r hop h1 hn
   | merge h o ih1 ih2 =>
-    obtain ⟨o1, o2, o3⟩ := hop
+    obtain ⟨o1, o2, o3, o4⟩ := hop
     have hs := run_rinv c P minK hm h hv.1 r
     have hso := run_rinv c P minK hm o hv.2 (run c P h r).2
-    simp only [run, Hist.inputs] at h1 ⊢
-    have hL : (run c P h r).1.levels.length = 1 := by
-      have := merge_length_ge c P (run c P o (run c P h r).2).2 (run c P h r).1 (run c P o (run c P h r).2).1
-      have hne := hs.inv.ne
-      have : (run c P h r).1.levels.length ≠ 0 := by simpa using hne
-      omega
-    obtain ⟨a1, a2⟩ := ih1 hv.1 r o1 hL
-    obtain ⟨b1, b2⟩ := ih2 hv.2 _ o2 o3
+    obtain ⟨b1, b2⟩ := ih2 hv.2 _ o2 o3 o4
+    simp only [run, Hist.inputs] at h1 hn ⊢
     by_cases h0 : mergeSkips c (run c P o (run c P h r).2).1 = true
-    · rw [merge_skipped _ _ _ _ _ h0]
+    · rw [merge_skipped _ _ _ _ _ h0] at h1 hn ⊢
+      obtain ⟨a1, a2⟩ := ih1 hv.1 r o1 h1 hn
       have : o.inputs = [] := skipped_exact_nil c hso.inv b1 b2 h0
       rw [this]
       split <;> simp [a1, a2]
     · by_cases hd : o.dim = h.dim
       · have hd' : (run c P o (run c P h r).2).1.dim = (run c P h r).1.dim := by rw [run_dim, run_dim]; exact hd
-        rw [merge_accepted _ _ _ _ _ (by simpa using h0) hd'] at h1 ⊢
+        rw [merge_accepted _ _ _ _ _ (by simpa using h0) hd'] at h1 hn ⊢
         have hmi := merged_inv hs.inv hso.inv
-        have hnc : compactLoop P (run c P o (run c P h r).2).2 (merged (run c P h r).1 (run c P o (run c P h r).2).1) = _ :=
-          drain_one_level P _ _ hmi hs.kpos h1
-        rw [hnc]
+        have g1 := compactLoop_numRetained_le c P (run c P o (run c P h r).2).2 (merged (run c P h r).1 (run c P o (run c P h r).2).1)
+        have g2 := compactLoop_n c P (run c P o (run c P h r).2).2 (merged (run c P h r).1 (run c P o (run c P h r).2).1)
+        have g3 := hs.nge
+        have g4 := hso.nge
+        have gm : (merged (run c P h r).1 (run c P o (run c P h r).2).1).numRetained
+            = (merged (run c P h r).1 (run c P o (run c P h r).2).1).n → (run c P h r).1.numRetained = (run c P h r).1.n := by
+          simp only [merged]; omega
+        have gle : (merged (run c P h r).1 (run c P o (run c P h r).2).1).numRetained
+            ≤ (merged (run c P h r).1 (run c P o (run c P h r).2).1).n := by simp only [merged]; omega
+        have hkeep : (compactLoop c P (run c P o (run c P h r).2).2 (merged (run c P h r).1 (run c P o (run c P h r).2).1)).1.numRetained
+            = (merged (run c P h r).1 (run c P o (run c P h r).2).1).numRetained := by omega
+        have hnc : compactLoop c P (run c P o (run c P h r).2).2 (merged (run c P h r).1 (run c P o (run c P h r).2).1) = _ :=
+          drain_noop c P _ _ hmi hs.kpos (merged_top c hs hso) hkeep h1
+        rw [hnc] at h1 hn ⊢
+        have hL : (run c P h r).1.levels.length = 1 := by
+          have := length_mergeLevels_ge (run c P h r).1.levels (run c P o (run c P h r).2).1.levels
+          have hne : (run c P h r).1.levels.length ≠ 0 := by simpa using hs.inv.ne
+          simp only [merged] at h1
+          omega
+        obtain ⟨a1, a2⟩ := ih1 hv.1 r o1 hL (gm hn)
         simp [merged, hd, a1, b1, a2, b2, mergeLevels]
       · have hd' : (run c P o (run c P h r).2).1.dim ≠ (run c P h r).1.dim := by rw [run_dim, run_dim]; exact hd
-        rw [merge_refused _ _ _ _ _ hd']
+        rw [merge_refused _ _ _ _ _ hd'] at h1 hn ⊢
         simp only [hd, if_false]
-        exact ⟨a1, a2⟩
+        exact ih1 hv.1 r o1 h1 hn
+
+/-- pinned shape of `compact()`: one level already implies that no point was lost (a compaction always leaves ≥ 2 levels and
+levels are never removed) -/
+theorem run_one_level_pinned (c : Cfg) (hp : c.popsEmptyTop = false) (P : Picker ρ α) (minK : Nat) (hm : 1 ≤ minK) (hist : Hist α)
+    (hv : hist.valid minK) (r : ρ) (h1 : (run c P hist r).1.levels.length = 1) :
+    (run c P hist r).1.numRetained = (run c P hist r).1.n := by
+  induction hist generalizing r with
+  | new k d => rfl
+  | upd h p ih =>
+    have hs := run_rinv c P minK hm h hv r
+    simp only [run] at h1 ⊢
+    by_cases hpd : p.length = (run c P h r).1.dim
+    · rw [update_accepted _ _ _ _ _ hpd] at h1 ⊢
+      simp only at h1 ⊢
+      rw [length_pushLevel0 _ _ (compactLoop_inv c P _ hs.inv).ne] at h1
+      have hnc : compactLoop c P (run c P h r).2 (run c P h r).1 = ((run c P h r).1, (run c P h r).2) :=
+        drain_one_level c hp P _ _ hs.inv hs.kpos h1
+      rw [hnc] at h1 ⊢
+      have := ih hv r h1
+      simp only; omega
+    · rw [update_refused _ _ _ _ _ hpd] at h1 ⊢
+      exact ih hv r h1
+  | merge h o ih1 ih2 =>
+    have hs := run_rinv c P minK hm h hv.1 r
+    have hso := run_rinv c P minK hm o hv.2 (run c P h r).2
+    simp only [run] at h1 ⊢
+    by_cases h0 : mergeSkips c (run c P o (run c P h r).2).1 = true
+    · rw [merge_skipped _ _ _ _ _ h0] at h1 ⊢
+      exact ih1 hv.1 r h1
+    · by_cases hd : (run c P o (run c P h r).2).1.dim = (run c P h r).1.dim
+      · rw [merge_accepted _ _ _ _ _ (by simpa using h0) hd] at h1 ⊢
+        have hnc : compactLoop c P (run c P o (run c P h r).2).2 (merged (run c P h r).1 (run c P o (run c P h r).2).1) = _ :=
+          drain_one_level c hp P _ _ (merged_inv hs.inv hso.inv) hs.kpos h1
+        rw [hnc] at h1 ⊢
+        have l1 := length_mergeLevels_ge (run c P h r).1.levels (run c P o (run c P h r).2).1.levels
+        have l2 := length_mergeLevels_ge' (run c P h r).1.levels (run c P o (run c P h r).2).1.levels
+        have n1 : (run c P h r).1.levels.length ≠ 0 := by simpa using hs.inv.ne
+        have n2 : (run c P o (run c P h r).2).1.levels.length ≠ 0 := by simpa using hso.inv.ne
+        simp only [merged] at h1 ⊢
+        have := ih1 hv.1 r (by omega)
+        have := ih2 hv.2 (run c P h r).2 (by omega)
+        omega
+      · rw [merge_refused _ _ _ _ _ hd] at h1 ⊢
+        exact ih1 hv.1 r h1
 
 /-! ### the estimate in exact arithmetic -/
 
